@@ -390,3 +390,74 @@ Proof.
   intros d [E|[]]. inversion E; subst. simpl. tauto.
 Qed.
 Print Assumptions C19_proc_teardown_error_legacy_refuted.
+
+(* ====================================================================================================
+   The CHARACTERS of the document (Model/JsonText.v, proofs in Proofs/JsonTextP.v): the last step of
+   JsonReporter.complete_run, json.dump(json_data, self.outstream), with the texts as they are in the
+   implementation -- lists of code points 0 .. 0x10FFFF, lone surrogates included -- and a text stream
+   that raises UnicodeEncodeError on a character its codec does not have (errors='strict').
+   [dumps_doc d] = the characters json.dump produces for the reporter's document [d] (task names, results,
+   captured out / err, failure messages, start time, text of the elapsed time, run-level out / err);
+   [write enc s] = (an exception was raised, the bytes that reached the stream).
+   ==================================================================================================== *)
+From DoitV Require Import JsonText JsonTextP.
+
+(* whatever the tasks are called, wrote or failed with: every character of the document is printable
+   ASCII ([nums_ok]: the text of a float is -- float.__repr__ is an oracle) *)
+Theorem C19_json_text_is_ascii :
+  forall d, nums_ok d = true -> forallb printable (dumps_doc d) = true.
+Proof. exact dumps_doc_printable. Qed.
+Print Assumptions C19_json_text_is_ascii.
+
+(* ... so on a stream of ANY codec that maps ASCII to itself (ascii, latin-1, utf-8, cp1252, ... stdout
+   under PYTHONIOENCODING / the C locale, the utf-8 file of -o) the write of the document never fails
+   part-way, and what reaches the stream is the whole document, the same bytes for every such codec *)
+Theorem C19_json_text_write_never_fails :
+  forall enc : N -> option (list N),
+  (forall c, c < 128 -> enc c = Some [c]) ->
+  forall d, nums_ok d = true ->
+  write enc (dumps_doc d) = (false, dumps_doc d).
+Proof. exact write_doc. Qed.
+Print Assumptions C19_json_text_write_never_fails.
+
+(* the three codecs the correspondence check evaluates are such codecs *)
+Theorem C19_json_text_codecs_ascii_compatible :
+  forall k c, c < 128 -> codec k c = Some [c].
+Proof. exact codec_ascii_compatible. Qed.
+Print Assumptions C19_json_text_codecs_ascii_compatible.
+
+(* content cannot break the document: the reader (json.decoder.py_scanstring, strict) started after the
+   opening quote of an escaped string stops exactly at ITS closing quote, whatever follows and whatever
+   the text contains (quotes, backslashes, look-alikes of the document), and gives back the text's code
+   points -- [merge]: a high surrogate half directly followed by a low half reads back as the one
+   character their \u notation denotes *)
+Theorem C19_json_text_string_read_back :
+  forall s rest, forallb code_point s = true ->
+  scan (tl (esc_string s) ++ rest) = Some (merge s, rest).
+Proof. exact scan_esc_string. Qed.
+Print Assumptions C19_json_text_string_read_back.
+
+(* ... exactly the text when it has no such pair (everything os.fsdecode can produce: its lone
+   surrogates U+DC80..U+DCFF are all low halves) *)
+Theorem C19_json_text_string_read_back_exact :
+  forall s rest, forallb code_point s = true -> no_pair s = true ->
+  scan (tl (esc_string s) ++ rest) = Some (s, rest).
+Proof. exact scan_esc_string_exact. Qed.
+Print Assumptions C19_json_text_string_read_back_exact.
+
+(* non-vacuity: "found caf\udce9.txt\n" (a name that is not UTF-8, through os.fsdecode), U+00E9, U+1F600 and
+   a quote, written to an ASCII-only stream: nothing raised, every byte below 128; a utf-8 stream gets the
+   same bytes; without the escaping the same text cannot be written to either ([codec_utf8] has no lone
+   surrogate); the text reads back as it was, two adjacent halves as one character *)
+Example C19_json_text_nonvacuous :
+  let s := [102; 111; 117; 110; 100; 32; 99; 97; 102; 56553; 46; 116; 120; 116; 10; 233; 128512; 34] in
+  let d := Build_jtdoc [Build_jtask [116; 48] (Some [115; 117; 99; 99; 101; 115; 115]) (Some s) (Some []) None None None] s [] in
+  nums_ok d = true /\
+  fst (write codec_ascii (dumps_doc d)) = false /\
+  forallb (fun b => b <? 128) (snd (write codec_ascii (dumps_doc d))) = true /\
+  write codec_utf8 (dumps_doc d) = write codec_ascii (dumps_doc d) /\
+  fst (write codec_ascii s) = true /\ fst (write codec_utf8 s) = true /\
+  forallb code_point s = true /\ no_pair s = true /\
+  scan (tl (esc_string s) ++ [44; 32]) = Some (s, [44; 32]) /\
+  scan (tl (esc_string [55357; 56832])) = Some ([128512], []).
+Proof. vm_compute. repeat split; reflexivity. Qed.
